@@ -193,41 +193,6 @@ theorem C03_data_every_step {K : Type} (v : Variant) (hv : v.multiRepaired = tru
 
 /-! ## 3. the hand-over to `SSI_multi_setup` -/
 
-/-- what `MultiSetup_PreGER.data` / `gen.pre_multisetup` holds for the datasets `D` and reference lists `R`
-    (`[]` where the code raises) -/
-def splitOf {K : Type} (D : List (Mat K)) (R : List (List ℕ)) : List (Setup K) :=
-  match preMultisetupRec D R with
-  | .ok Y => Y
-  | .error _ => []
-
-theorem splitOf_eq {K : Type} (D : List (Mat K)) (R : List (List ℕ)) (h : ValidRefs D R) :
-    splitOf D R = List.zipWith splitAt D R := by
-  simp only [splitOf, preMultisetupRec_ok D R h]
-
-/-- the DOFs of the roving blocks: setup `i`'s roving channels (ascending channel order) mapped to the DOFs they
-    measure -/
-def movDofs {K : Type} (D : List (Mat K)) (R : List (List ℕ)) (dof : ℕ → ℕ → ℕ) : List (List ℕ) :=
-  (List.range D.length).map fun i => (rovingCols ((D.map Mat.c).getD i 0) (R.getD i [])).map (dof i)
-
-theorem movDofs_get {K : Type} (D : List (Mat K)) (R : List (List ℕ)) (dof : ℕ → ℕ → ℕ) (i : ℕ) (y : Mat K)
-    (r : List ℕ) (hy : D[i]? = some y) (hr : R[i]? = some r) :
-    (movDofs D R dof)[i]? = some ((rovingCols y.c r).map (dof i)) := by
-  have hi : i < D.length := (List.getElem?_eq_some_iff.mp hy).1
-  simp only [movDofs, List.getElem?_map, List.getElem?_range hi, Option.map_some, List.getD_eq_getElem?_getD,
-    hy, hr, Option.getD_some]
-
-theorem movDofs_get_inv {K : Type} (D : List (Mat K)) (R : List (List ℕ)) (dof : ℕ → ℕ → ℕ) (hlen : R.length = D.length)
-    (i : ℕ) (mi : List ℕ) (h : (movDofs D R dof)[i]? = some mi) :
-    ∃ y r, D[i]? = some y ∧ R[i]? = some r ∧ mi = (rovingCols y.c r).map (dof i) := by
-  have hi : i < D.length := by
-    have := (List.getElem?_eq_some_iff.mp h).1
-    simpa [movDofs] using this
-  have hy : D[i]? = some D[i] := List.getElem?_eq_getElem hi
-  have hr : R[i]? = some (R[i]'(by omega)) := List.getElem?_eq_getElem (by omega)
-  refine ⟨_, _, hy, hr, ?_⟩
-  rw [movDofs_get D R dof i _ _ hy hr] at h
-  exact (Option.some.inj h).symm
-
 /-- **C03_handover — from the user's datasets and `ref_ind` to what `SSI_multi_setup` works on.**  For admissible
     reference lists (`ValidRefs`: one list per dataset, no repeats, in range, at least one reference and one
     roving channel): `gen.pre_multisetup` does not raise; the head of `SSI_multi_setup` reads `n_setup`, `n_ref` =
